@@ -33,6 +33,7 @@ QUICK_SC = ["ssl3-rsa", "tls10-dhe_rsa", "tls11-ecdhe_rsa", "tls12-rsa",
             "tls12-ecdhe_ecdsa", "tls12-dhe_dsa", "tls12-srp",
             "tls12-srp_rsa", "tls12-dh_anon", "tls12-ecdhe_rsa-clientauth",
             "tls12-resume-id", "tls12-resume-ticket", "tls12-ecdhe_rsa-alpn",
+            "tls12-tickets-issue",
             "tls13-rsa", "tls13-hrr", "tls13-psk_dhe", "tls13-resume-ticket",
             "tls13-clientauth", "default-default", "default-vs-tls12server"]
 
@@ -524,6 +525,26 @@ def run_case(ctx, cid, P):
                           "MITM changed negotiated %s and both completed" %
                           bdiff)
             return
+        # what the handshake handed over must be what the peer sent: the
+        # <= 1.2 session ticket the client now holds is one the server issued
+        if sc.ver < (3, 4) and r.p.c.session is not None:
+            issued = []
+            for t, body in wire.plain_handshake(r.p.link.records, "s2c"):
+                if t == 4 and len(body) >= 6:
+                    issued.append(bytes(body[6:]))
+            held = [bytes(t.ticket) for t in
+                    (r.p.c.session.tls_1_0_tickets or [])
+                    if getattr(t, "ticket", None) is not None]
+            if issued:
+                ctx.count("tickets_compared")
+            if issued and held and held[-1] not in issued:
+                ctx.violation(dict(key, clause="both_complete_views_differ",
+                                   field="session_ticket"),
+                              dict(W, held=held[-1][:80],
+                                   issued=issued[-1][:80]),
+                              "both completed; the client stored a session "
+                              "ticket the server did not issue")
+                return
         out = "both_complete_harmless"
         ctx.count("harmless")
         rt = [x for x in base.p.link.records if x.dir == m[1]][m[2]].type
